@@ -253,9 +253,10 @@ Definition entry_spec (S : symbol_map) (s : symbol_id) (r : option docsym) : Pro
   match fst s with
   | KRecord => record_entry_spec S e r
   | KDefset =>
-      exists rs, r = Some (DocSym (e_name e) (s2n "defset") (fr_lo (e_def e)) (fr_hi (e_def e)) DKDefset (filter_some rs)) /\
-                 Forall2 (fun id x => exists de, get_entry S (KRecord, id) = Some de /\ record_entry_spec S de x)
-                         (p_defs (e_payload e)) rs
+      (* the defs of the defset that are declared in the defset's own file, in def_list order *)
+      exists des rs, r = Some (DocSym (e_name e) (s2n "defset") (fr_lo (e_def e)) (fr_hi (e_def e)) DKDefset (filter_some rs)) /\
+                 Forall2 (fun id de => get_entry S (KRecord, id) = Some de) (p_defs (e_payload e)) des /\
+                 Forall2 (record_entry_spec S) (filter (same_file_as e) des) rs
   | KMulticlass =>
       exists ts, r = Some (DocSym (e_name e) (s2n "multiclass") (fr_lo (e_def e)) (fr_hi (e_def e)) DKMulticlass ts) /\
                  Forall2 (leaf_child S KTemplateArg DKTemplateArgument) (amap_values (p_targs (e_payload e))) ts
@@ -271,11 +272,12 @@ Proof.
   - now injection H as <-.
   - now injection H as <-.
   - now injection H as <-.
-  - apply sbind_ok in H. destruct H as (rs & Hr & H). injection H as <-. exists rs. split; [reflexivity|].
-    apply smap_Forall2 in Hr. induction Hr as [|id x ids xs Hx _ IH]; constructor; [|exact IH].
-    apply sbind_ok in Hx. destruct Hx as (de & Hde & Hx). unfold symbol in Hde.
-    destruct (get_entry S (KRecord, id)) as [de'|] eqn:Ed; [|discriminate]. injection Hde as ->.
-    exists de. split; [first [exact Ed|reflexivity]|]. now apply record_docsym_spec.
+  - apply sbind_ok in H. destruct H as (des & Hd & H). apply sbind_ok in H. destruct H as (rs & Hr & H).
+    injection H as <-. exists des, rs. split; [reflexivity|]. split.
+    + apply smap_Forall2 in Hd. clear Hr. induction Hd as [|id de ids des' Hx _ IH]; constructor; [|exact IH].
+      unfold record, symbol in Hx. destruct (get_entry S (KRecord, id)) as [de'|]; [|discriminate]. now injection Hx as ->.
+    + apply smap_Forall2 in Hr. induction Hr as [|de x des' xs Hx _ IH]; constructor; [|exact IH].
+      now apply record_docsym_spec.
   - apply sbind_ok in H. destruct H as (ts & Ht & H). injection H as <-. exists ts. split; [reflexivity|].
     now apply leaf_docsyms_spec.
   - now injection H as <-.
